@@ -107,8 +107,27 @@ def norm_result(case, res):
     return out
 
 
+def post_case(mod, case, res):
+    """post-condition shared by every case of the equivariance checks: the input objects handed to the library still
+    hold what they were built from (see vlib.mlh.mutated_inputs)."""
+    if "vlib.mlh" in sys.modules:
+        muts = sys.modules["vlib.mlh"].mutated_inputs()
+        if muts and getattr(mod, "INPUTS_MUST_BE_UNCHANGED", False) and isinstance(res, dict) and res.get("status", "ok") in ("ok", "violation"):
+            res.setdefault("violations", []).append(
+                {
+                    "fp": f"{mod.ID}/input-modified-in-place",
+                    "msg": "a call changed the input object it was given, so f(g.x) formed from that object after f(x) no longer equals g.f(x): " + "; ".join(muts),
+                    "detail": {"case": case},
+                }
+            )
+    return res
+
+
 def _worker_init(src, check_name):
     setup_env()
+    from vlib import cov
+
+    cov.start(src)
     bind_src(src)
     global _MOD
     _MOD = importlib.import_module(f"checks.{check_name}")
@@ -133,10 +152,14 @@ def _worker_run(args):
                     }
                 ],
             }
+        res = post_case(_MOD, case, res)
         r = norm_result(case, res)
         r["idx"] = idx
         r["t"] = time.time() - t0
         out.append(r)
+    from vlib import cov
+
+    cov.dump(_MOD.ID)
     return out
 
 
@@ -205,7 +228,7 @@ def run_check(check_name, tier, seed, src, jobs, replay=None, limit=None, quiet=
         bind_src(src)
         rec = json.load(open(replay))
         case = rec["case"]
-        res = norm_result(case, mod.run_case(case, rec.get("seed", seed)))
+        res = norm_result(case, post_case(mod, case, mod.run_case(case, rec.get("seed", seed))))
         print(json.dumps({"case": case, "status": res["status"], "violations": res["violations"]}, indent=1, default=str))
         if res["violations"]:
             print(f"VIOLATION property={pid} replay={replay}")
